@@ -16,6 +16,18 @@ def gen_inputs(seed, count, path):
         "SELECT '" + "é" * 3000 + "'", "SELECT $t$" + "x" * 5000 + "$t$", "SELECT $t$" + "y" * 9000 + "$t$, 1", "SELECT " + ", ".join(str(i) for i in range(1500)),
         "SELECT 1 /* " + "c" * 4090 + " */ , 2", "\ufeffSELECT (1", "\ufeffSELECT 1 +", "\ufeff) SELECT 1", "\u00a0SELECT FROM", "\ufeff\nSELECT (", "SELECT " + " " * 4094 + "'é'", "\xef\xbb\xbfSELECT 1", "SELECT \xff 1",
     ]
+    boundary = []
+    # a lexically significant fragment straddling the bufio fill boundary (4096 / 8192), inside and outside quoted contexts
+    for (op, cl) in (("SELECT 1 /* ", " */ , 2; SELECT 3"), ("SELECT '", "' AS s; SELECT 3"), ("SELECT 1 AS `", "`; SELECT 3"), ("SELECT 1 -- ", "\n, 2; SELECT 3"), ("SELECT ", " , 2; SELECT 3")):
+        for frag in ("*/ /* x", "/*/ */", "''", "\\'", "\\\\", "é", "日本", "\r\n", "a;b", "``", "\\`", "1::Int8", "a<=>b", "$$;$$", "x'41'"):
+            if (op.endswith("/* ") and frag.startswith("*/")) or (op == "SELECT " and frag in ("''", "\\'", "\\\\", "``", "\\`", "é", "日本", "\r\n", "/*/ */", "*/ /* x")):
+                continue
+            for at in (4096, 8192):
+                for k in range(0, len(frag.encode("utf-8")) + 1):
+                    pad = at - len(op.encode("utf-8")) - k
+                    boundary.append(op + "a" * pad + frag + " b" + cl)
+    rnd.shuffle(boundary)
+    special += boundary[:max(count // 3, 40)]
     out = []
     for s in special:
         out.append(s.encode("utf-8", "surrogateescape") if isinstance(s, str) else s)
